@@ -5,7 +5,7 @@ directories), search paths added in every order, all name forms; the fake passwd
 Oracle: the first directory in add order holding a regular file, computed by the generator."""
 import itertools
 import re
-from common import Scn, hx, unhx, Opt
+from common import Scn, hx, unhx, Opt, CFGF
 import gen
 
 VARIANT = 'plain'
@@ -14,7 +14,9 @@ RULE = ('layouts x search-path orders x name forms; non-trivial = at least two d
         'name; distinct by scenario text')
 TRUSTED = ['fake passwd table served by getpwnam/getpwuid defined in the harness executable']
 
-SCHEMA = [Opt('int', b'm', 0, 0), Opt('func', b'include', func='include')]
+INC = Opt('func', b'include', func='include')
+SCHEMA = [Opt('int', b'm', 0, 0), INC, Opt('sec', b'box', 0, None, [Opt('int', b'm', 0, 0), INC]),
+          Opt('sec', b'mb', CFGF['MULTI'], None, [Opt('int', b'm', 0, 0), INC])]
 DIRS = [b'd1', b'd2', b'd3']
 
 
@@ -106,6 +108,10 @@ def generate(rng, tier):
                 exp[len(lines)] = ('parse', mark)
                 lines.append('parse_buf 0 ' + hx(b'include("f.conf")\n'))
                 lines.append('dump 0')
+                for secname, key in ((b'box', 'parse-box'), (b'mb', 'parse-mb')):
+                    exp[len(lines)] = (key, mark)
+                    lines.append('parse_buf 0 ' + hx(secname + b' { include("f.conf") }\n'))
+                    lines.append('dump 0')
             # a name starting with ~: the top-level parse and include() resolve it alike (with a search path the name is
             # looked up below each directory as it stands; without one it is tilde-expanded)
             tilde_names = [b'~/f.conf', b'~bob/f.conf'] if len(order) <= 1 or n % 5 == 0 else []
@@ -158,8 +164,12 @@ def oracle(scn, il):
                 out.append(('%s:%s' % (kind, name_form(unhx(scn.lines[idx].split()[-1]) or b'')),
                             '%s: expected %s, got %s (search path %s)' % (scn.lines[idx], want, got,
                                                                             [l for l in scn.lines if l.startswith('searchpath')])))
-        elif kind == 'parse':
+        elif kind in ('parse', 'parse-box', 'parse-mb'):
             dump = body[idx + 1] if idx + 1 < len(body) else ''
+            if kind == 'parse-box':
+                dump = dump[dump.find('(cfg 626f78'):]
+            elif kind == 'parse-mb':
+                dump = dump[dump.rfind('(cfg 6d62'):] if '(cfg 6d62' in dump else ''
             m = re.search(r'\(opt 6d int 1 \d \d \d \S+ (-?\d+)\)', dump)
             val = int(m.group(1)) if m else None
             if e is None:
